@@ -193,13 +193,13 @@ fn check_rewrap(ctx: &mut Ctx, e: &E, lib: &Value, t: &Ty, v: &V) {
         2 => {
             let ov = gen_val(&mut ctx.rng, &other);
             let mut budget = 60;
-            let oe = gen_expr(&mut ctx.rng, &other, &ov, 1, &mut budget, &mut [0; 9]);
+            let oe = gen_expr(&mut ctx.rng, &other, &ov, 1, &mut budget, &mut [0; NR]);
             (E::P(Box::new(e.clone()), Box::new(oe)), Ty::prod(t.clone(), other.clone()), V::P(Rc::new(v.clone()), Rc::new(ov)))
         }
         _ => {
             let ov = gen_val(&mut ctx.rng, &other);
             let mut budget = 60;
-            let oe = gen_expr(&mut ctx.rng, &other, &ov, 1, &mut budget, &mut [0; 9]);
+            let oe = gen_expr(&mut ctx.rng, &other, &ov, 1, &mut budget, &mut [0; NR]);
             (E::P(Box::new(oe), Box::new(e.clone())), Ty::prod(other.clone(), t.clone()), V::P(Rc::new(ov), Rc::new(v.clone())))
         }
     };
@@ -390,7 +390,7 @@ fn one_case_inner(ctx: &mut Ctx, e: &E, ty_kind: &str, prune_targets: Option<Vec
     } else {
         ctx.count(&format!("reach:ty-{ty_kind}"));
     }
-    let mut rs = [false; 9];
+    let mut rs = [false; NR];
     routes_of(e, &mut rs);
     for (i, b) in rs.iter().enumerate() {
         if *b {
@@ -482,7 +482,7 @@ pub fn replay(ctx: &mut Ctx, case: &str) {
 }
 
 pub fn run(ctx: &mut Ctx) {
-    if raw_of(&Value::u8(1)).map(|x| x.0) != Some(vec![1]) {
+    if catch(|| raw_of(&Value::u8(1)).map(|x| x.0)) != Ok(Some(vec![1])) {
         ctx.note("the Debug rendering of Value no longer shows raw_value/raw_bit_offset: buffers are not compared");
     }
     // 1. a fixed list: the regression shapes of the suite and of DESIGN.md sec. 6
@@ -515,7 +515,7 @@ pub fn run(ctx: &mut Ctx) {
     let n = ctx.scale(18_000, 220_000);
     // every `period`-th case is a word of 512 … 4096 bits (expensive in the Lean model: few)
     let period = ctx.scale(600, 400);
-    let mut used = [0u64; 9];
+    let mut used = [0u64; NR];
     for it in 0..n {
         let forced_big = it % period == 1;
         let (t, kind) = if forced_big {
@@ -540,6 +540,65 @@ pub fn run(ctx: &mut Ctx) {
     }
     for (i, u) in used.iter().enumerate() {
         ctx.count_n(&format!("generated-route-{}", ROUTES[i]), *u);
+    }
+
+    // 2b. the buffer constructor and ctx8-shaped values built from it, bare and inside other histories
+    let n = ctx.scale(600, 12_000);
+    for it in 0..n {
+        let bn = ctx.rng.below(6) as usize;
+        let len = match ctx.rng.below(4) {
+            0 => 0,
+            1 => (2usize << bn) - 1,
+            _ => ctx.rng.below(2u64 << bn) as usize,
+        };
+        let data = ctx.rng.bytes(len);
+        let b = E::B(bn, data.clone());
+        let e = match it % 5 {
+            0 => b,
+            1 => {
+                // Value::ctx8(midstate, count, buffer) = product(buffer(5), product(u64, u256))
+                let l5 = ctx.rng.below(64) as usize;
+                let b5 = E::B(5, ctx.rng.bytes(l5));
+                E::P(Box::new(b5), Box::new(E::P(Box::new(E::W(6, ctx.rng.bytes(8))), Box::new(E::W(8, ctx.rng.bytes(32))))))
+            }
+            2 => {
+                let wn = ctx.rng.below(3) as u8;
+                E::A2(Box::new(E::P(Box::new(E::W(wn, vec![0])), Box::new(b))))
+            }
+            3 => E::M(false, Box::new(b)),
+            _ => {
+                let wn = ctx.rng.below(5) as usize;
+                E::R(Ty::word(wn), Box::new(b))
+            }
+        };
+        one_case(ctx, &e, "buffer-ctx8", None);
+        // the convenience constructor of ctx8 agrees with the composition
+        if it % 5 == 1 {
+            if let E::P(b5, rest) = &e {
+                if let (E::B(_, d), E::P(c, m)) = (&**b5, &**rest) {
+                    if let (E::W(_, cb), E::W(_, mb)) = (&**c, &**m) {
+                        let line = format!("v {}", e.show());
+                        let r = catch(|| {
+                            let direct = Value::ctx8(mb.clone().try_into().unwrap(), u64::from_be_bytes(cb.clone().try_into().unwrap()), d);
+                            let composed = eval_lib(&e);
+                            (direct.ok().map(|v| show_sub(&v)), composed.ok().map(|v| show_sub(&v)))
+                        });
+                        ctx.count("reach:ctx8-constructor");
+                        match r {
+                            Ok((Some(a), Some(b2))) if a == b2 => {}
+                            other => fail(ctx, "ctx8-constructor", &line, format!("Value::ctx8 vs product of its parts: {:?}", other)),
+                        }
+                    }
+                }
+            }
+        }
+    }
+    // too long a slice is an error
+    for bn in 0..6usize {
+        let r = catch(|| Value::buffer8_two_n_plus_one(bn, &vec![0u8; 2 << bn]).is_err());
+        if r != Ok(true) {
+            fail(ctx, "buffer-too-long-accepted", &format!("v B {} {}", bn, show_hex(&vec![0u8; 2 << bn])), format!("{:?}", r));
+        }
     }
 
     // 3. decoders on arbitrary input: every bit string of the right length is a value; short ones are errors
